@@ -75,6 +75,18 @@ let dump st =
   container None;
   List.iter (fun e -> if (not e.e_meta) && e.e_kids <> [] then container (Some e)) l
 
+let dump_aliases st =
+  let l = st.s_ents in
+  List.iter (fun e ->
+    if int_of_n e.e_ty <> 21 then begin
+      let al = List.filter (fun a -> int_of_n a.e_ty = 21 && (match a.e_dist with Some d -> int_of_n d = int_of_n e.e_id | None -> false)) l in
+      if al <> [] then begin
+        Printf.printf "al %s %d :" (show (string_of_name e.e_name)) (1 + List.length al);
+        List.iter (fun a -> Printf.printf " %s" (show (string_of_name a.e_name))) (e :: al);
+        print_newline ()
+      end
+    end) l
+
 let dump_match st =
   List.iteri (fun a fr ->
     List.iter (fun sl ->
@@ -127,6 +139,7 @@ let () =
            | _ ->
              st := st';
              dump !st;
+             dump_aliases !st;
              dump_match !st;
              Printf.printf "i sorted=%d fresh=%d ref=%d clive=%d ccons=%d meta=%d alive=%d ares=%d\n"
                (b2 (sorted_ok !st)) (b2 (ids_fresh !st)) (b2 (ref_ok !st)) (b2 (cache_live !st))
